@@ -15,7 +15,7 @@
    A rule carries an identity [r_id] (its line number / position) so that an oracle is a function of the
    rule and not of its position in the list that is being matched. *)
 From Coq Require Import String Ascii List Bool ZArith Arith.
-From Tally Require Import Lib.Str Engine.StrLib Gen.C09Specificity Gen.C01IsExpr.
+From Tally Require Import Lib.Str Engine.StrLib Gen.C09Specificity Gen.C01IsExpr Engine.CaseMap.
 Import ListNotations.
 Open Scope string_scope.
 
@@ -462,11 +462,12 @@ Definition normalize_engine (tf : tf_oracle) (o_at : string -> option (list (str
       else unknown_result t (tags r)
   end.
 
-(* legacy path *)
+(* legacy path: patterns are searched in description.upper() — Python's full upper-casing (Engine/CaseMap.v), which is
+   not 1:1 (sharp s -> SS), so searching the raw text case-insensitively would be a different condition *)
 Definition normalize_legacy (tf : tf_oracle) (lo_at : string -> option (list (string * string)) -> loracle)
            (rules : list lrule) (amount date : option Z) (tfs : list (string * string)) (t0 : txn) : nres :=
   let t := apply_transforms tf tfs t0 in
-  match lrun (lo_at (t_desc t) (t_fields t)) (upper (t_desc t)) amount date lst0 rules with
+  match lrun (lo_at (t_desc t) (t_fields t)) (py_upper (t_desc t)) amount date lst0 rules with
   | None => NCrash
   | Some s =>
       let tgs := map fst (ls_tags s) in
